@@ -57,6 +57,23 @@ type c15Sub struct {
 	collided bool // the peer sent a PDU with this call's sequence number: the call may have returned it
 }
 
+// c15ReleaseHeld lets every open Write of the given Submits return, until none is open any more (a call may reach the
+// transport only once another's Write has returned).
+func c15ReleaseHeld(w *World, subs []*c15Sub, mark bool) {
+	for again := true; again && w.Stuck == ""; {
+		again = false
+		for _, s := range subs {
+			if w.Held(s.c) {
+				w.Release(s.c)
+				if mark {
+					s.held = false
+				}
+				again = true
+			}
+		}
+	}
+}
+
 // c15Common runs the checks every teardown shares: no panic, Done() closed, blocked Submit calls returned an error promptly.
 func c15Common(r *Run, w *World, input, term string, subs []*c15Sub, t0 time.Time, needWatch bool) {
 	for _, p := range w.Panics() {
@@ -137,11 +154,7 @@ func c15Scenario(r *Run, ts []pduType, idx int, term string) {
 		switch rng.Intn(4) {
 		case 0: // ... or an undecodable frame does (answered by generic_nack; the Submit stays outstanding)
 			f = genBadFrame(rng, ts, x.c.Seq)
-			for _, o := range subs { // (no caller Write is open when the generic_nack is due: see c16.go)
-				if o.held && w.Release(o.c) {
-					o.held = false
-				}
-			}
+			c15ReleaseHeld(w, subs, true) // (no caller Write is open when the generic_nack is due: see c16.go)
 		case 1: // ... or a response PDU of a type that does not answer the request
 			f = genUnsolicited(rng, ts, x.c.Seq)
 		default:
@@ -179,6 +192,9 @@ func c15Scenario(r *Run, ts []pduType, idx int, term string) {
 	case "close-write-fails":
 		// the unbind cannot be written: Close returns the error; it cancels the connection all the same
 		cl = w.Go(100, CallSpec{Kind: "close", Seq: fresh(), WriteFails: true})[0]
+		if !w.Returned(cl) {
+			c15ReleaseHeld(w, subs, true) // (the unbind waits for the transport behind an open Write)
+		}
 		needWatch = inflight == 2
 		closeFails = true
 	case "parent-cancel":
@@ -190,6 +206,9 @@ func c15Scenario(r *Run, ts []pduType, idx int, term string) {
 		}
 	case "close-answered", "close-answered-early", "close-unsolicited-behind-unbind_resp":
 		cl = w.Go(100, CallSpec{Kind: "close", Seq: fresh()})[0]
+		if !w.Written(cl) {
+			c15ReleaseHeld(w, subs, true) // (the unbind waits for the transport behind an open Write)
+		}
 		resp := frameOf(&pdu.UnbindResp{Header: pdu.Header{Sequence: cl.Seq}})
 		switch term {
 		case "close-answered":
@@ -229,6 +248,14 @@ func c15Scenario(r *Run, ts []pduType, idx int, term string) {
 				w.Release(x.c)
 				x.held = false
 			}
+			if !w.Returned(x.c) && !w.Written(x.c) {
+				// on its way to the transport behind another caller's open Write: like a call inside its own Write
+				// it goes on once the transport lets it
+				c15ReleaseHeld(w, subs, true)
+				if w.Held(x.c) {
+					w.Release(x.c)
+				}
+			}
 			input := "sched " + w.Script()
 			tookIt := x.collided && x.c.Err == nil && x.c.Resp != nil && pdu.ReadSequence(x.c.Resp) == x.c.Seq
 			if !w.Returned(x.c) || (x.c.Err == nil && !tookIt) || x.c.RetAt.Sub(tc) > promptly {
@@ -249,11 +276,7 @@ func c15Scenario(r *Run, ts []pduType, idx int, term string) {
 		t0 = time.Now()
 	}
 	// callers whose Write is still open go on once it returns and then see the closed connection
-	for _, s := range subs {
-		if s.held && w.Held(s.c) {
-			w.Release(s.c)
-		}
-	}
+	c15ReleaseHeld(w, subs, false)
 	// a Submit begun after the teardown: its frame may still reach the transport; it returns an error
 	var late *Call
 	if rng.Intn(3) == 0 && w.Stuck == "" && w.doneClosed() {
@@ -318,6 +341,12 @@ func c15Many(r *Run, ts []pduType, idx, k int, term string) {
 	if w.Held(last.c) {
 		w.Release(last.c)
 	}
+	if !w.Returned(last.c) && !w.Written(last.c) {
+		c15ReleaseHeld(w, subs, true) // (it waits for the transport behind another caller's open Write)
+		if w.Held(last.c) {
+			w.Release(last.c)
+		}
+	}
 	pre := "sched " + w.Script()
 	if w.Stuck == "" {
 		if !w.Returned(last.c) || last.c.Err == nil || last.c.RetAt.Sub(tc) > promptly {
@@ -339,15 +368,14 @@ func c15Many(r *Run, ts []pduType, idx, k int, term string) {
 		w.CancelParent()
 	default:
 		cl = w.Go(5000, CallSpec{Kind: "close", Seq: 9000})[0]
+		if !w.Written(cl) {
+			c15ReleaseHeld(w, subs, true)
+		}
 		w.Release(cl)
 		t0 = time.Now()
 		w.PeerPDU(&pdu.UnbindResp{Header: pdu.Header{Sequence: 9000}})
 	}
-	for _, s := range subs {
-		if s.held && w.Held(s.c) {
-			w.Release(s.c)
-		}
-	}
+	c15ReleaseHeld(w, subs, false)
 	input := "sched " + w.Script()
 	r.Count(input, true, "many/"+label)
 	if runStuck(r, w, input) {
